@@ -7,6 +7,7 @@ import (
 	"fmt"
 	"go/ast"
 	"go/types"
+	"strings"
 )
 
 func (x *Exec) bigKey() string {
@@ -290,6 +291,66 @@ func (fr *Frame) mutexKey(st *State, c *ast.CallExpr) (string, Val, bool) {
 	return key, owner, true
 }
 
+// Monitors ("//@ monitor (st *T) mu()" blocks): the mutex field guards the places listed under
+// modifies, and the invariant clauses hold whenever the mutex is free. Releasing the mutex
+// has to re-establish the invariant (obligation monitor:<key>:invariant-at-unlock); acquiring
+// it lets the unit assume the invariant, and when the unit had released the same mutex before
+// on this path, the guarded places hold arbitrary values satisfying the invariant: whatever
+// the unit learned in an earlier critical section may have been changed by another goroutine
+// (check-then-act across two critical sections is not atomic).
+func (fr *Frame) monitorEnv(st *State, mon *Contract, owner Val) *SpecEnv {
+	names := map[string]Val{}
+	if mon.Recv != nil {
+		names[mon.Recv.Name] = owner
+	}
+	return &SpecEnv{x: fr.x, pkg: fr.x.eng.pkgs[mon.Pkg], names: names, st: st, old: st, bound: map[string]bool{}}
+}
+
+func (fr *Frame) monitorRelease(st *State, c *ast.CallExpr, key string, owner Val, mon *Contract) {
+	x := fr.x
+	short := strings.TrimPrefix(key, "mutex:")
+	x.used("monitor " + short + ": invariant re-established at every release; guarded state arbitrary (within the invariant) when re-acquired after a release")
+	env := fr.monitorEnv(st, mon, owner)
+	for _, inv := range mon.Requires {
+		t, err := fr.evalClause(env, inv)
+		if err != nil {
+			x.u.oblige("monitor:"+short+":invariant-at-unlock:"+inv.Label, "contract-stale", inv.Src, fr.pos(c.Pos()), st.pc, "false").Clause = "contract-stale: " + err.Error()
+			continue
+		}
+		x.u.oblige("monitor:"+short+":invariant-at-unlock:"+inv.Label, "assert", inv.Src, fr.pos(c.Pos()), st.pc, t)
+	}
+	st.ghost["mrel:"+key] = Val{T: "true", S: "Bool"}
+}
+
+func (fr *Frame) monitorAcquire(st *State, c *ast.CallExpr, key string, owner Val, mon *Contract) {
+	x := fr.x
+	if flag, ok := st.ghost["mrel:"+key]; ok && flag.T != "false" {
+		hv := func(s *State) {
+			for _, m := range mon.Modifies {
+				for _, k := range x.placeKeys(x.eng.pkgs[mon.Pkg], m) {
+					x.havocHeap(s, k)
+				}
+			}
+		}
+		if flag.T == "true" {
+			hv(st)
+		} else {
+			yes := st.clone()
+			yes.pc = x.namePC(x.and(st.pc, flag.T))
+			no := st.clone()
+			no.pc = x.namePC(x.and(st.pc, not(flag.T)))
+			hv(yes)
+			*st = *x.merge([]*State{yes, no})
+		}
+	}
+	env := fr.monitorEnv(st, mon, owner)
+	for _, inv := range mon.Requires {
+		if t, err := fr.evalClause(env, inv); err == nil {
+			x.u.gfact(st.pc, t)
+		}
+	}
+}
+
 func init() {
 	lock := func(delta int, check bool) libHandler {
 		return func(fr *Frame, st *State, c *ast.CallExpr, fn *types.Func) []Val {
@@ -304,7 +365,13 @@ func init() {
 			if check {
 				fr.safety(st, "unlock-of-unlocked-mutex", fr.src(c), c, "(> "+cur+" 0)")
 			}
+			if mon := x.eng.monitors[key]; mon != nil && delta < 0 {
+				fr.monitorRelease(st, c, key, owner, mon)
+			}
 			x.heapStore(st, key, owner.T, fmt.Sprintf("(+ %s %d)", cur, delta))
+			if mon := x.eng.monitors[key]; mon != nil && delta > 0 {
+				fr.monitorAcquire(st, c, key, owner, mon)
+			}
 			if x.mutexKeys == nil {
 				x.mutexKeys = map[string]bool{}
 			}
